@@ -10,7 +10,8 @@ EXTRA_ASSUMPTIONS = {}
 
 
 def make_replay(pid, o, model):
-    fn = REPLAYERS.get(o.get('unit'))
+    from contracts import native_parse
+    fn = {'C05': native_parse.replay_c05, 'C06': native_parse.replay_c06}.get(pid) or REPLAYERS.get(o.get('unit'))
     if fn is None:
         return None
     return fn(o, model)
@@ -31,6 +32,10 @@ def build(reg, only=None):
         for k in ('test_for_specials', 'get_specials_spec'):
             if k in units['C14']:
                 units['C11'][k] = units['C14'][k]
+    # the node tree's tiling (C01) rests on the tokenizer contracts of C11
+    if 'C01' in units and 'C11' in units:
+        for k, u in units['C11'].items():
+            units['C01'].setdefault(k, u)
     # C05 / C06 rest on the same collector / parser / tokenizer contracts as C01 and C11
     for pid in ('C05', 'C06'):
         if pid in units:
